@@ -51,8 +51,12 @@ static VaBlock *va_find(void *p) {
 	while (va_tab[j].addr) { if (va_tab[j].addr == p) return &va_tab[j]; j = (j + 1) & (va_cap - 1); }
 	return NULL;
 }
+static int va_quiet;   /* >0: verification phase of a scenario, allocations are neither counted nor failed */
+#define VA_QUIET(stmt) do { va_quiet++; stmt; va_quiet--; } while (0)
 static int va_should_fail(void) {
-	long long c = ++va_count;
+	long long c;
+	if (va_quiet) return 0;
+	c = ++va_count;
 	if (va_fail_at < 0) return 0;
 	if (c == va_fail_at || (va_sticky && c > va_fail_at)) {
 		if (!va_fired) { va_fail_nbt = backtrace(va_fail_bt, VA_BT); va_fired = 1; if (va_on_fire) va_on_fire(); }
